@@ -69,6 +69,7 @@ WhyNot(W, g, n) ==
 C01v(line, pre) ==
   UNION {{<<"C01", WhyNot(pre, g, n), g, n>> : n \in {m \in TermAttempt(line, g) \cup DelAttempt(line, g) : ~Removable(pre, g, m)}} : g \in Groups(pre)}
 C01f(line, pre) ==
+  (IF line.crash THEN {"C01:crashed-mid-scan"} ELSE {}) \cup
   UNION {LET rem == TermOK(line, g) IN
          {IF ClauseC(pre, g, n) THEN "C01:removed-c" ELSE IF ClauseA(pre, g, n) THEN "C01:removed-a" ELSE "C01:removed-b" : n \in {m \in rem : Removable(pre, g, m)}}
          \cup {"C01:kept-" \o WhyNot(pre, g, n) : n \in {m \in Listed(pre, g) \ rem :
@@ -344,7 +345,7 @@ C12v(line, pre) ==
             line.calls[j].op = "list_pods" /\ line.calls[j].g = pre.gorder[i]
         THEN {<<"C12", "later-group-not-processed", "", "">>} ELSE {})
 C12x(line, pre, exp) ==   \* a failure that the specification classifies as non-fatal stopped the scan before the later groups
-  IF line.ret # "nil" /\ ~line.panic /\ ~line.hang /\ ~line.exit /\ exp.valid /\ exp.ret = "nil"
+  IF line.ret # "nil" /\ ~line.crash /\ ~line.panic /\ ~line.hang /\ ~line.exit /\ exp.valid /\ exp.ret = "nil"
      /\ \E i \in 1..Len(pre.gorder) : ~\E j \in 1..Len(line.calls) : line.calls[j].op = "list_pods" /\ line.calls[j].g = pre.gorder[i]
   THEN {<<"C12", "non-fatal-failure-stopped-later-groups", "", "">>} ELSE {}
 C12f(line, pre) ==
@@ -453,7 +454,7 @@ C20v(line, pre, exp) ==
   (IF line.panic THEN {<<"C20", "panic", "", line.panicMsg>>} ELSE {})
   \cup (IF line.hang THEN {<<"C20", "hang", "", "">>} ELSE {})
   \cup (IF line.exit /\ ~\E g \in Groups(pre) : pre.groups[g].cfg.fleet /\ pre.groups[g].tries >= 2 THEN {<<"C20", "undocumented-exit", "", "">>} ELSE {})
-  \cup (IF line.ret = "error" /\ ~line.panic /\ ~line.hang /\ ~line.exit THEN {<<"C20", "scan-aborted-by-non-fatal-problem", "", "">>} ELSE {})
+  \cup (IF line.ret = "error" /\ ~line.panic /\ ~line.hang /\ ~line.exit /\ ~line.crash THEN {<<"C20", "scan-aborted-by-non-fatal-problem", "", "">>} ELSE {})
   \cup (IF line.ret = "notingroup" /\ exp.valid /\ exp.ret # "notingroup" THEN {<<"C20", "stopped-without-not-in-group", "", "">>} ELSE {})
 C20f(line, pre, exp) ==
   (IF line.faults # <<>> THEN {"C20:faulty-scan"} ELSE {})
